@@ -84,7 +84,11 @@ def projects(draw: Any) -> Dict[str, Any]:
             '@implementer(IReader)\nclass R:\n    pass\n@implementer(IWriter)\nclass W:\n    pass\n@implementer(ISeek, IBuf)\nclass S:\n    pass\n'
             'class Stream(R, W, S):\n    """inherits four interfaces"""\n    def close(self):\n        pass\n    def read(self):\n        pass\n'
             'class Stream2(S):\n    """inherits two interfaces from one base"""\n    def close(self):\n        pass\n'
-            '@implementer(IWriter, IReader, IBuf)\nclass Tri:\n    pass\nclass Stream3(Tri):\n    def close(self):\n        pass\n')
+            '@implementer(IWriter, IReader, IBuf)\nclass Tri:\n    pass\nclass Stream3(Tri):\n    def close(self):\n        pass\n'
+            # interfaces whose names differ only by case, one of them declared twice: wherever they are listed, the order is a function
+            # of the source
+            'class IUrl(Interface):\n    def get():\n        """get of IUrl"""\nclass IURL(Interface):\n    def get():\n        """get of IURL"""\nclass Iurl(Interface):\n    pass\n'
+            '@implementer(IUrl, IURL, Iurl, IUrl)\nclass Page:\n    def get(self):\n        pass\n@implementer(Iurl, IURL)\nclass Page2(Page):\n    def get(self):\n        pass\n')
     if f['star_reexport']:
         # several names brought in by one star import of a module without __all__ and re-exported together: the order in which
         # they are moved must not depend on the iteration order of a set
